@@ -16,7 +16,7 @@ def main():
         "torch view/copy semantics on bytes, pickle, json are torch's / CPython's",
     ]
     run.assumptions += ["devices: cpu / None only (no accelerator in the sandbox)", "all (sub-)tensordicts of the modelled histories share the batch dims"]
-    from c12_fns import hard_deadline, single_threaded_torch
+    from c12_fns import guarded_stream, hard_deadline, single_threaded_torch
     single_threaded_torch()
     quick = run.tier == "quick"
     import c11_gen
@@ -50,18 +50,18 @@ def main():
     import c11_rebuild
     scratch.mkdir(parents=True, exist_ok=True)
     try:
-        c11_rebuild.run_rebuild(run, drv, scratch)
+        guarded_stream(run, "rebuild", c11_rebuild.run_rebuild, run, drv, scratch)
     finally:
         shutil.rmtree(scratch, ignore_errors=True)
     with hard_deadline(300 if quick else 1500, "layout + threaded writer"):
-        c11_hist.run_layout(run, drv)
+        guarded_stream(run, "layout", c11_hist.run_layout, run, drv)
     with hard_deadline(420 if quick else 2400, "histories"):
-        c11_hist.run_histories(run, drv)
+        guarded_stream(run, "histories", c11_hist.run_histories, run, drv)
     import c11_trips
     with hard_deadline(420 if quick else 3000, "trips (other processes in the thorough tier)"):
-        c11_trips.run_trips(run)
+        guarded_stream(run, "trips", c11_trips.run_trips, run)
     with hard_deadline(300 if quick else 1500, "pytree / state_dict / to_dict"):
-        c11_trips.run_pytree(run, drv)
+        guarded_stream(run, "pytree-statedict-todict", c11_trips.run_pytree, run, drv)
     import os
     if os.environ.get("VERIF_DEBUG"):
         from collections import Counter
